@@ -8,15 +8,21 @@
 (* (b, k) = k * phi_b whose cosine and sine THIS module recomputes; lengths*)
 (* of vectors the code normalises are witnesses (`len`) that this module   *)
 (* checks (len^2 = |v|^2, and positive through the exact pair `lenq`).     *)
-(* With P = 46337 values are residues; with P = -1 exact pairs <<n, d>>.   *)
+(* With P = 46337 values are residues; with P = -1 exact pairs <<n, d>>;   *)
+(* with P = PPoly the records come from the symbolic lane: operands are    *)
+(* free symbols, an angle is the symbol pair `cs` = (cos, sin) (`hcs` for  *)
+(* the half angle) and each result is a polynomial compared as such.       *)
 (***************************************************************************)
 EXTENDS VekXform, TLC, Json, IOUtils
-Rec == ndJsonDeserialize(IOEnv.TRACE)
+Rec == DecodeTrace(ndJsonDeserialize(IOEnv.TRACE))
 VARIABLE l
 
 \* token base 0 = quarter turns
 QuarterCS(k) == LET m == k % 4 IN IF m = 0 THEN <<F1, F0>> ELSE IF m = 1 THEN <<F0, F1>> ELSE IF m = 2 THEN <<FNeg(F1), F0>> ELSE <<F0, FNeg(F1)>>
 CSOf(b, k) == IF b = 0 THEN QuarterCS(k) ELSE TokenCS(b, k)
+\* the (cos, sin) of a record's angle: recomputed from the token, or the symbol pair of the symbolic lane
+CS(e) == IF "cs" \in DOMAIN e THEN e.cs ELSE CSOf(e.b, e.k)
+HCS(e) == IF "hcs" \in DOMAIN e THEN e.hcs ELSE CSOf(e.b, e.hk)
 \* a length witness: squares to |v|^2 and is positive (checked on the exact pair)
 LenOk(len, lenq, v) == FSq(len) = Norm2(v) /\ lenq[1] > 0 /\ lenq[2] > 0 /\ FOfQ(lenq) = len
 UnitOf(v, len) == VScale(v, FInv(len))
@@ -25,7 +31,7 @@ AxisRot(axis, n, cs) ==
     IF n = 2 THEN RotZ2(cs[1], cs[2])
     ELSE Resize(CASE axis = "x" -> RotX3(cs[1], cs[2]) [] axis = "y" -> RotY3(cs[1], cs[2]) [] axis = "z" -> RotZ3(cs[1], cs[2]), n)
 QuatRotExpected(e) ==
-    LET h == CSOf(e.b, e.hk)
+    LET h == HCS(e)
         r == QuatOfHalfAngleAxis(h[1], h[2], UnitOf(e.v, e.len))
     IN IF e.form \in {"rotation_3d", "rotation_x", "rotation_y", "rotation_z"} THEN r ELSE QuatMul(r, e.a)
 ConvExpected(e) ==
@@ -34,14 +40,14 @@ ConvExpected(e) ==
       [] e.how \in {"identity", "default"} -> QuatId
       [] e.how = "zero" -> <<F0, F0, F0, F0>>
 \* the steps of a chain record carry (c, s) next to their token; bind them
-StepsOk(steps) == \A i \in 1 .. Len(steps) : <<steps[i].c, steps[i].s>> = CSOf(steps[i].b, steps[i].kk)
+StepsOk(steps) == \A i \in 1 .. Len(steps) : "b" \in DOMAIN steps[i] => <<steps[i].c, steps[i].s>> = CSOf(steps[i].b, steps[i].kk)
 
 Expected(e) ==
-    CASE e.op = "rot_axis" -> MatMul(AxisRot(e.axis, e.n, CSOf(e.b, e.k)), e.a)
-      [] e.op = "rot_3d" -> LET cs == CSOf(e.b, e.k) IN MatMul(Resize(Rodrigues(cs[1], cs[2], UnitOf(e.v, e.len)), e.n), e.a)
+    CASE e.op = "rot_axis" -> MatMul(AxisRot(e.axis, e.n, CS(e)), e.a)
+      [] e.op = "rot_3d" -> LET cs == CS(e) IN MatMul(Resize(Rodrigues(cs[1], cs[2], UnitOf(e.v, e.len)), e.n), e.a)
       [] e.op = "mat_of_quat" -> IF e.n = 3 THEN MatOfQuat3(e.q) ELSE MatOfQuat4(e.q)
       [] e.op = "quat_rot" -> QuatRotExpected(e)
-      [] e.op = "vec2_rot" -> LET cs == CSOf(e.b, e.k) IN MatVec(RotZ2(cs[1], cs[2]), e.v)
+      [] e.op = "vec2_rot" -> LET cs == CS(e) IN MatVec(RotZ2(cs[1], cs[2]), e.v)
       [] e.op = "quat_mul" -> QuatMul(e.p, e.q)
       [] e.op = "quat_add" -> VAdd(e.p, e.q)
       [] e.op = "quat_sub" -> VSub(e.p, e.q)
